@@ -1,0 +1,115 @@
+//go:build verif
+
+package keeper
+
+// Contracts for the deductive checker in /verif (comment-only; compiled only with -tags verif).
+
+/*@
+alias TokenPair github.com/haqq-network/haqq/x/erc20/types.TokenPair
+alias TokenPairList []github.com/haqq-network/haqq/x/erc20/types.TokenPair
+alias E20Params github.com/haqq-network/haqq/x/erc20/types.Params
+alias Bytes []uint8
+alias EthAddr github.com/ethereum/go-ethereum/common.Address
+sort TpHas = (Array Bytes Bool)
+sort TpVal = (Array Bytes TokenPair)
+sort DmHas = (Array Str Bool)
+sort DmVal = (Array Str Bytes)
+sort AmHas = (Array EthAddr Bool)
+sort AmVal = (Array EthAddr Bytes)
+
+// abstract view of the erc20 store: two flag keys, pairs (0x01 | id), erc20 index (0x02 | address), denom index (0x03 | denom)
+world e20_enable bool
+world e20_hook bool
+world tp_has TpHas
+world tp_val TpVal
+world am_has AmHas
+world am_val AmVal
+world dm_has DmHas
+world dm_val DmVal
+
+specfunc tp_none() TpHas = smt "((as const (Array Slice_Int Bool)) false)"
+specfunc tp_put_has(h TpHas, k Bytes) TpHas = smt "(store h k true)"
+specfunc tp_put_val(m TpVal, k Bytes, e TokenPair) TpVal = smt "(store m k e)"
+specfunc dm_none() DmHas = smt "((as const (Array Str Bool)) false)"
+specfunc dm_put_has(h DmHas, k string) DmHas = smt "(store h k true)"
+specfunc dm_put_val(m DmVal, k string, id Bytes) DmVal = smt "(store m k id)"
+specfunc am_none() AmHas = smt "((as const (Array (Array Int Int) Bool)) false)"
+specfunc am_put_has(h AmHas, k EthAddr) AmHas = smt "(store h k true)"
+specfunc am_put_val(m AmVal, k EthAddr, id Bytes) AmVal = smt "(store m k id)"
+
+// two views answer every query identically
+specfunc tp_same(h1 TpHas, v1 TpVal, h2 TpHas, v2 TpVal) bool = forall id Bytes :: h1[id] == h2[id] && (h1[id] ==> v1[id] == v2[id])
+specfunc dm_same(h1 DmHas, v1 DmVal, h2 DmHas, v2 DmVal) bool = forall d string :: h1[d] == h2[d] && (h1[d] ==> v1[d] == v2[d])
+specfunc am_same(h1 AmHas, v1 AmVal, h2 AmHas, v2 AmVal) bool = forall a EthAddr :: h1[a] == h2[a] && (h1[a] ==> v1[a] == v2[a])
+// store invariant: every pair is stored under its own id
+specfunc tp_inv(h TpHas, v TpVal) bool = forall id Bytes :: h[id] ==> tp_id(v[id]) == id
+
+// the stores obtained by importing l[0..n): SetTokenPair / SetDenomMap / SetERC20Map per pair   ("fromList")
+ghost func tp_ins_has(h TpHas, l TokenPairList, n int) TpHas
+    def ite(n <= 0, h, tp_put_has(tp_ins_has(h, l, n-1), tp_id(l[n-1])))
+ghost func tp_ins_val(m TpVal, l TokenPairList, n int) TpVal
+    def ite(n <= 0, m, tp_put_val(tp_ins_val(m, l, n-1), tp_id(l[n-1]), l[n-1]))
+ghost func dm_ins_has(h DmHas, l TokenPairList, n int) DmHas
+    def ite(n <= 0, h, dm_put_has(dm_ins_has(h, l, n-1), l[n-1].Denom))
+ghost func dm_ins_val(m DmVal, l TokenPairList, n int) DmVal
+    def ite(n <= 0, m, dm_put_val(dm_ins_val(m, l, n-1), l[n-1].Denom, tp_id(l[n-1])))
+ghost func am_ins_has(h AmHas, l TokenPairList, n int) AmHas
+    def ite(n <= 0, h, am_put_has(am_ins_has(h, l, n-1), tp_addr(l[n-1])))
+ghost func am_ins_val(m AmVal, l TokenPairList, n int) AmVal
+    def ite(n <= 0, m, am_put_val(am_ins_val(m, l, n-1), tp_addr(l[n-1]), tp_id(l[n-1])))
+
+// the key-ordered enumeration of the pair store ("listOf"); bytes_lt = byte order of the ids
+uf tp_list(h TpHas, m TpVal) TokenPairList
+uf bytes_lt(a Bytes, b Bytes) bool
+specfunc tp_canon(l TokenPairList) bool = forall i int, j int :: 0 <= i && i < j && j < len(l) ==> bytes_lt(tp_id(l[i]), tp_id(l[j]))
+
+// ---- trusted axioms about the enumeration
+// A-tp-members
+axiom tp_list: forall h TpHas, m TpVal :: tp_inv(h, m) ==> tp_canon(tp_list(h, m)) && len(tp_list(h, m)) >= 0
+        && (forall i int :: 0 <= i && i < len(tp_list(h, m)) ==> h[tp_id(tp_list(h, m)[i])] && m[tp_id(tp_list(h, m)[i])] == tp_list(h, m)[i])
+// A-tp-fromList-listOf
+axiom tp_list: forall h TpHas, m TpVal, m0 TpVal :: tp_inv(h, m) ==>
+        tp_same(tp_ins_has(tp_none(), tp_list(h, m), len(tp_list(h, m))), tp_ins_val(m0, tp_list(h, m), len(tp_list(h, m))), h, m)
+// A-tp-listOf-fromList
+axiom tp_list: forall l TokenPairList, m0 TpVal :: tp_canon(l) ==>
+        seqeq(tp_list(tp_ins_has(tp_none(), l, len(l)), tp_ins_val(m0, l, len(l))), l)
+
+// ---- leaf store accessors: assumed contracts over the abstract store view
+func (Keeper).IsERC20Enabled
+    trusted
+    ensures result == e20_enable
+func (Keeper).GetEnableEVMHook
+    trusted
+    ensures result == e20_hook
+func (Keeper).setERC20Enabled
+    trusted
+    modifies e20_enable
+    ensures e20_enable == enable
+func (Keeper).setEnableEVMHook
+    trusted
+    modifies e20_hook
+    ensures e20_hook == enable
+func (Keeper).SetTokenPair
+    trusted
+    modifies tp_has, tp_val
+    ensures tp_has == tp_put_has(old(tp_has), tp_id(tokenPair)) && tp_val == tp_put_val(old(tp_val), tp_id(tokenPair), tokenPair)
+func (Keeper).SetDenomMap
+    trusted
+    modifies dm_has, dm_val
+    ensures dm_has == dm_put_has(old(dm_has), denom) && dm_val == dm_put_val(old(dm_val), denom, id)
+func (Keeper).SetERC20Map
+    trusted
+    modifies am_has, am_val
+    ensures am_has == am_put_has(old(am_has), erc20) && am_val == am_put_val(old(am_val), erc20, id)
+// iteration helper (prefix iterator + codec): the key-ordered enumeration of the pair store
+func (Keeper).GetTokenPairs
+    trusted
+    ensures result == tp_list(tp_has, tp_val)
+
+// ---- verified: params are the two flags
+func (Keeper).GetParams
+    ensures result.EnableErc20 == e20_enable && result.EnableEVMHook == e20_hook
+func (Keeper).SetParams
+    modifies e20_enable, e20_hook
+    ensures result == nil && e20_enable == params.EnableErc20 && e20_hook == params.EnableEVMHook
+@*/
